@@ -80,10 +80,16 @@ func runC14(c *Ctx) {
 	}
 	// ---- R14.2
 	nApp := 0
-	for _, call := range AllCalls(build) {
-		if CalleeName(call.Common()) != "append" || !strings.HasSuffix(call.Value().Type().String(), "HTTPIngressPath") {
-			continue
+	var appendCalls []ssa.CallInstruction
+	for _, g := range samePkgClosure(p, build) { // the path loop may be a helper of the builder
+		for _, call := range AllCalls(g) {
+			if CalleeName(call.Common()) == "append" && strings.HasSuffix(call.Value().Type().String(), "HTTPIngressPath") {
+				appendCalls = append(appendCalls, call)
+			}
 		}
+	}
+	for _, call := range appendCalls {
+		build := call.Parent()
 		nApp++
 		fs := FactsAtInstr(call.(ssa.Instruction))
 		ok := HasFact(fs, FCmp("==", MField("Service", "Name"), MField("StableService")))
